@@ -81,6 +81,18 @@ func (p *shapeStruct) Write(ctx context.Context, o thrift.TProtocol) error {
 					}
 				}
 			}
+		case "fstring", "fbinary":
+			// through the runtime's field helpers, as go:slim generated code does (they write
+			// field begin, value and field end themselves)
+			if f.Kind == "fstring" {
+				err = frugal.WriteStringWithContext(ctx, o, strings.Repeat("a", f.N), "f", id)
+			} else {
+				err = frugal.WriteBinaryWithContext(ctx, o, bytes.Repeat([]byte{0x61}, f.N), "f", id)
+			}
+			if err != nil {
+				return err
+			}
+			continue
 		case "struct":
 			if err = o.WriteFieldBegin(ctx, "f", thrift.STRUCT, id); err == nil {
 				inner := &shapeStruct{Fields: []shapeField{{"string", f.N}}}
@@ -132,8 +144,8 @@ func genC12(t *rapid.T) c12Case {
 		c.Fields = append(c.Fields, shapeField{k, rapid.IntRange(0, 5).Draw(t, "n")})
 	}
 	pos := rapid.SampledFrom([]string{"first", "middle", "last", "last"}).Draw(t, "pos")
-	largeKind := rapid.SampledFrom([]string{"string", "string", "binary", "struct"}).Draw(t, "largeKind")
-	if c.Proto == "json" && largeKind == "binary" {
+	largeKind := rapid.SampledFrom([]string{"string", "string", "binary", "struct", "fstring", "fbinary"}).Draw(t, "largeKind")
+	if c.Proto == "json" && (largeKind == "binary" || largeKind == "fbinary") {
 		largeKind = "string" // base64 makes the size non-linear
 	}
 	lf := shapeField{largeKind, 0}
